@@ -134,3 +134,84 @@ func VH_C10_Handshake() {
 	}
 	p.shutdown()
 }
+
+// VH_C10_LateSYN: "delay ... with stale packets of an earlier connection still
+// queued in the transport". Real client (window 20) and server; the first two
+// packets of each direction are delivered, dropped, duplicated or delayed in
+// order by 1.5 s (longer than the handshake timeout, so SYNs are re-sent and
+// answers arrive late); optionally a SYN of an earlier connection carrying a
+// different window (10) is still queued towards the server (ahead of this
+// connection's packets: the transport keeps per-direction order).
+// The server then streams 12 messages. At the horizon the two parties are not
+// both alive in the data phase with different windows, and if both are alive
+// the messages have been delivered - an attempt either converges on the
+// client's window or fails visibly on the side that cannot proceed.
+func VH_C10_LateSYN() {
+	const n = 20
+	p := &vPair{c2s: newLink("c2s", 2), s2c: newLink("s2c", 2)}
+	p.c2s.fates, p.s2c.fates = 3, 3
+	p.c2s.delayDur, p.s2c.delayDur = 1500*time.Millisecond, 1500*time.Millisecond
+	p.arm()
+	p.ctx, p.cancel = context.WithCancel(context.Background())
+	// per-direction FIFO: a packet of an earlier connection can only sit ahead
+	// of the packets of this one
+	if vBool("stale_syn_queued") {
+		b, _ := (&PacketSYN{N: 10}).Serialize()
+		p.c2s.push(b)
+	}
+	const msgs = 12
+	got := 0
+	cliDone, srvDone := make(chan struct{}), make(chan struct{})
+	go func() {
+		defer close(srvDone)
+		p.srv, p.srvErr = NewServerConn(p.ctx, p.s2c.send, p.c2s.recv, WithTimeoutOptions(WithKeepalivePing(5*time.Second, 3*time.Second)))
+		if p.srvErr != nil || p.srv == nil {
+			return
+		}
+		for i := 0; i < msgs; i++ {
+			if p.srv.Send([]byte{byte(i)}) != nil {
+				return
+			}
+		}
+	}()
+	go func() {
+		defer close(cliDone)
+		p.cli, p.cliErr = NewClientConn(p.ctx, n, p.c2s.send, p.s2c.recv, WithTimeoutOptions(WithKeepalivePing(7*time.Second, 3*time.Second)))
+		if p.cliErr != nil || p.cli == nil {
+			return
+		}
+		for got < msgs {
+			m, err := p.cli.Recv()
+			if err != nil {
+				return
+			}
+			vAssert(len(m) == 1 && m[0] == byte(got), "client received something else than the server's next message")
+			got++
+		}
+	}()
+	time.Sleep(time.Duration(vParam("horizon_s", 90)) * time.Second)
+	vReach("late-syn-horizon")
+	alive := func(c *GoBackNConn) bool {
+		if c == nil {
+			return false
+		}
+		select {
+		case <-c.quit:
+			return false
+		default:
+			return true
+		}
+	}
+	cliUp, srvUp := p.cliErr == nil && alive(p.cli), p.srvErr == nil && alive(p.srv)
+	if cliUp && srvUp {
+		vReach("late-syn-both-up")
+		vAssert(p.srv.cfg.n == p.cli.cfg.n, "both parties are in the data phase, alive, with different window sizes")
+		vAssert(got == msgs, "both parties are alive in the data phase but the server's messages are not delivered (silent stall)")
+	}
+	if cliUp {
+		vAssert(p.cli.cfg.n == n, "client changed its window")
+	}
+	p.shutdown()
+	<-cliDone
+	<-srvDone
+}
